@@ -369,6 +369,8 @@ def run(chk: common.Check):
         "Lean 4 kernel; axioms propext, Quot.sound, Classical.choice only (audited per theorem on this run)",
         "translator: Gen/Writers.lean - node classes observed in cleaned trees of 200 generated documents (plus images/galleries) x "
         "hasattr(RlWriter, 'write'+class) / hasattr(ODFWriter, 'owrite'+class), regenerated on this run",
+        "hand-written model lean/MwVerif/Model/Spans.lean of rltables.check_spans (filler cells for colspan/rowspan, clipping, padding; "
+        "the SPAN style list is not modelled), tied by correspondence on every small table and random ones",
         "NOT modelled: the bodies of the ~120 writer methods, reportlab, odfpy, layout: checked end to end by rendering generated "
         "collections and reading the words back (pypdf text extraction; XML parse + odflint)",
         "fonts/images: rendering runs without network with the fonts present in the sandbox",
@@ -387,7 +389,22 @@ def run(chk: common.Check):
         hist.update(h)
     for item, kind, detail in c:
         bad.append({"seed": item, "why": f"{kind}: {detail} while rendering"})
+    # span normalisation of the PDF writer: the real check_spans vs the Lean model, on every small table and random ones
+    from . import spans_corr
+
+    sr, sc = guard.guarded_run(str(chk.mkscratch()), "harness.spans_corr:worker", spans_corr.all_items(tier, chk.seed), nproc=8, hard_timeout=120)
+    sdiffs, shist = [], Counter()
+    for d_, v_, h_ in sr:
+        sdiffs += d_
+        shist.update(h_)
+        for x in v_:
+            bad.append({"seed": None, "text": x["text"], "why": x["why"]})
+    for item, kind, detail in sc:
+        bad.append({"seed": None, "text": repr(item), "why": f"{kind}: {detail} (check_spans)"})
     chk.coverage.update({
+        "traces_validated_against_impl": shist.get("tables", 0),
+        "correspondence_differences": len(sdiffs),
+        "check_spans_histogram": dict(shist),
         "evaluations": n,
         "distinct_nontrivial": hist.get("collections", 0),
         "rule": "collections of 1-4 documents of the C02 grammar (every section has body text), half of the multi-article ones with chapters, "
@@ -407,8 +424,13 @@ def run(chk: common.Check):
         chk.violation("C08 violated: " + b["why"], b, sig={"kind": b["why"][:22]})
     if bad:
         return
+    broken = []
     if not res.ok:
-        chk.violation("C08 is no longer shown to hold: lean broke (" + ", ".join(res.failed_targets or ["axioms/forbidden"]) + "); "
-                      "rendering the generated collections lost no word",
-                      {"broken": [{"kind": "lean", "failed": res.failed_targets, "missing": t.get("missing"), "log_tail": res.log[-1500:]}],
-                       "theorems": PROP_MODULES}, no_input=True)
+        broken.append({"kind": "lean", "failed": res.failed_targets, "missing": t.get("missing"), "bad_axioms": res.bad_axioms,
+                       "forbidden": res.forbidden_hits, "log_tail": res.log[-1500:]})
+    if sdiffs:
+        broken.append({"kind": "correspondence(check_spans)", "count": len(sdiffs), "first": sdiffs[0]})
+    if broken:
+        chk.violation("C08 is no longer shown to hold: " + ", ".join(b["kind"] for b in broken) + " broke ("
+                      + ", ".join(res.failed_targets or []) + "); rendering the generated collections lost no word",
+                      {"broken": broken, "theorems": PROP_MODULES}, no_input=True)
